@@ -51,6 +51,10 @@ type callTokenData struct {
 	CallID    string // 32-char lowercase hex; binds this call to its cursors
 	SchemaIPC []byte // serialized output schema for dynamic methods; nil for static
 	StreamID  string // stable across init/continuations of one stream call
+	// InputSchemaIPC is the serialized StreamResult.InputSchema of a dynamic
+	// exchange, which exists only at /init. Without it a continuation could
+	// not cast a castable-but-unequal input the way the pipe transports do.
+	InputSchemaIPC []byte
 }
 
 // cursorTokenData is the advancing half: re-minted every turn under
@@ -69,8 +73,9 @@ type cursorTokenData struct {
 // resolvedCall is what an authenticated CallID resolves to — either from the
 // cache or by opening the client's call token.
 type resolvedCall struct {
-	SchemaIPC []byte
-	StreamID  string
+	SchemaIPC      []byte
+	StreamID       string
+	InputSchemaIPC []byte
 }
 
 // defaultCallStateCacheEntries bounds the per-process call cache.
@@ -448,6 +453,12 @@ func normalizeTokenKey(key []byte) []byte {
 // packCallToken seals the half of a stream's state that is fixed for the
 // life of the call. Minted once, by /init; never re-issued.
 func (h *HttpServer) packCallToken(callID string, outputSchema *arrow.Schema, auth *AuthContext, streamID string) ([]byte, error) {
+	return h.packCallTokenWithInput(callID, outputSchema, nil, auth, streamID)
+}
+
+// packCallTokenWithInput is packCallToken that also carries a dynamic
+// exchange's runtime input schema; see callTokenData.InputSchemaIPC.
+func (h *HttpServer) packCallTokenWithInput(callID string, outputSchema, inputSchema *arrow.Schema, auth *AuthContext, streamID string) ([]byte, error) {
 	data := callTokenData{
 		CreatedAt: time.Now().Unix(),
 		CallID:    callID,
@@ -456,13 +467,16 @@ func (h *HttpServer) packCallToken(callID string, outputSchema *arrow.Schema, au
 	if outputSchema != nil {
 		data.SchemaIPC = serializeSchema(outputSchema)
 	}
+	if inputSchema != nil {
+		data.InputSchemaIPC = serializeSchema(inputSchema)
+	}
 	token, err := h.sealToken(callTokenVersion, &data, callTokenAad(auth))
 	if err != nil {
 		return nil, err
 	}
 	// Warm the cache with the values we already hold, so this stream's first
 	// continuation does not have to open the token it was just handed.
-	h.callStates.put(callID, auth, &resolvedCall{SchemaIPC: data.SchemaIPC, StreamID: streamID}, data.CreatedAt)
+	h.callStates.put(callID, auth, &resolvedCall{SchemaIPC: data.SchemaIPC, StreamID: streamID, InputSchemaIPC: data.InputSchemaIPC}, data.CreatedAt)
 	return token, nil
 }
 
@@ -533,7 +547,7 @@ func (h *HttpServer) resolveCall(cursor *cursorTokenData, callToken []byte, auth
 		return nil, &RpcError{Type: "RuntimeError", Message: "Malformed state token"}
 	}
 
-	got := &resolvedCall{SchemaIPC: data.SchemaIPC, StreamID: data.StreamID}
+	got := &resolvedCall{SchemaIPC: data.SchemaIPC, StreamID: data.StreamID, InputSchemaIPC: data.InputSchemaIPC}
 	h.callStates.put(cursor.CallID, auth, got, data.CreatedAt)
 	return got, nil
 }
